@@ -5,8 +5,8 @@ import json, os, subprocess, sys, glob
 V = os.path.dirname(os.path.dirname(os.path.abspath(__file__)))
 RELATED = {"C01": ["C01", "C02", "C08"], "C02": ["C02", "C01"], "C03": ["C03", "C01"], "C04": ["C04", "C08"],
            "C05": ["C05"], "C06": ["C06", "C15"], "C07": ["C07"], "C08": ["C08", "C01"], "C09": ["C09"],
-           "C10": ["C10", "C08"], "C11": ["C11"], "C12": ["C12", "C08"], "C13": ["C13"], "C14": ["C14"],
-           "C15": ["C15", "C06", "C09"], "C16": ["C16"], "C17": ["C17"], "C18": ["C18", "C04"]}
+           "C10": ["C10", "C08", "C09"], "C11": ["C11", "C13"], "C12": ["C12", "C08"], "C13": ["C13"], "C14": ["C14", "C06"],
+           "C15": ["C15", "C06", "C09"], "C16": ["C16"], "C17": ["C17"], "C18": ["C18", "C04", "C13"]}
 claimed = [c["property_id"] for c in json.load(open(os.path.join(V, "MANIFEST.json")))["checks"]]
 ids = sys.argv[1:] or sorted(os.listdir(os.path.join(V, "seeded")))
 assert subprocess.run(["git", "-C", "/repo", "status", "--porcelain", "--untracked-files=no"], capture_output=True, text=True).stdout.strip() == "", "/repo not clean"
